@@ -2,6 +2,7 @@ package props
 
 import (
 	"fmt"
+	"go/types"
 	"strings"
 
 	"gmslverif/fw"
@@ -357,7 +358,8 @@ func checkVerifyJSONsFlow(c *fw.Ctx) {
 			store = append(store, call)
 		}
 	}
-	c.Check(len(dbFetch) == 1 && len(fetcherFetch) == 1 && len(store) == 1, rule, "one database query, one fetcher loop, one store", c.P.Pos(fn.Pos()), "", fmt.Sprintf("db=%d fetchers=%d store=%d", len(dbFetch), len(fetcherFetch), len(store)))
+	checkParallelSlices(c, rule, fn)
+	c.Expect(len(dbFetch) == 1 && len(fetcherFetch) == 1 && len(store) == 1, rule, "one database query, one fetcher loop, one store", c.P.Pos(fn.Pos()), "", fmt.Sprintf("the flow was not recognised in VerifyJSONs itself: db=%d fetchers=%d store=%d", len(dbFetch), len(fetcherFetch), len(store)))
 	if len(dbFetch) != 1 || len(fetcherFetch) != 1 || len(store) != 1 {
 		return
 	}
@@ -609,32 +611,57 @@ func checkCheckKeys(c *fw.Ctx) {
 		}
 	}
 	for _, k := range fw.SortedKeys(want) {
-		c.Check(got[k] == want[k], rule, "CheckKeys."+k, c.P.Pos(fn.Pos()), got[k], k+" is computed as "+got[k])
+		switch {
+		case got[k] == want[k]:
+			c.Ok(rule, "CheckKeys."+k, c.P.Pos(fn.Pos()), got[k])
+		case k == "FutureValidUntilTS" && (strings.HasPrefix(got[k], "(time.Time).After(param:now,") || strings.HasPrefix(got[k], "(time.Time).Before((gmsl/spec.Timestamp).Time(")):
+			c.Fail(rule, "CheckKeys."+k, c.P.Pos(fn.Pos()), k+" is computed as "+got[k]+": the comparison is reversed (true for responses whose validity has ended)")
+		default:
+			c.Undecided(rule, "CheckKeys."+k, k+" is computed as "+got[k]+", a form the rule does not know")
+		}
 	}
-	c.Check(strings.HasPrefix(got["AllChecksOK"], "phi(false|") && strings.Contains(got["AllChecksOK"], "FutureValidUntilTS"), rule, "AllChecksOK starts as name match && future validity", c.P.Pos(fn.Pos()), "", "AllChecksOK = "+got["AllChecksOK"])
-	if v := mustFunc(c, rule, "checkVerifyKeys"); v != nil {
-		// AllChecksOK &&= HasEd25519Key && allEd25519ChecksOK: whenever the stored value is true, the
-		// previous verdict, the presence of an ed25519 key and the all-keys-signed flag were true
-		nst := 0
-		for _, ds := range deepFieldStores(v, "KeyChecks", "AllChecksOK") {
+	// AllChecksOK: every assignment that can make it true requires either the verdict so far
+	// (a load of AllChecksOK) or the name match and the future validity; and some assignment
+	// requires the presence of an ed25519 key. (CheckKeys and its helpers are one region.)
+	{
+		construct := "AllChecksOK is true only with name match, future validity, an ed25519 key and valid self-signatures"
+		nst, withKey, undec := 0, 0, 0
+		for _, ds := range deepFieldStores(fn, "KeyChecks", "AllChecksOK") {
 			nst++
 			d, err := trueDNF(ds.St.Parent(), ds.St.Val, ds.St.Block())
 			if err != nil {
-				c.Undecided(rule, "AllChecksOK additionally requires an ed25519 key and valid self-signatures", err.Error())
+				undec++
+				c.Undecided(rule, construct, err.Error())
 				continue
 			}
-			missing := ""
+			missing, key := "", len(d) > 0
 			for _, term := range d {
-				if !termHas(term, lit{[]string{".AllChecksOK"}, true}) {
-					missing = "the verdict so far (name match and future validity)"
+				prev := termHas(term, lit{[]string{".AllChecksOK"}, true})
+				name := termHas(term, lit{[]string{".MatchingServerName"}, true}) || termHas(term, lit{[]string{"param:serverName == ", ".ServerName"}, true})
+				future := termHas(term, lit{[]string{".FutureValidUntilTS"}, true}) || termHas(term, lit{[]string{".After(", ".ValidUntilTS"}, true})
+				if !prev && !name {
+					missing = "the server-name match"
 				}
-				if !termHas(term, lit{[]string{".HasEd25519Key"}, true}) {
-					missing = "the presence of an ed25519 key"
+				if !prev && !future {
+					missing = "the future validity of the response"
+				}
+				if !termHas(term, lit{[]string{"HasEd25519Key"}, true}) {
+					key = false
 				}
 			}
-			c.Check(missing == "", rule, "AllChecksOK additionally requires an ed25519 key and valid self-signatures", c.P.Pos(fw.InstrPos(ds.St)), "", "AllChecksOK can become true without "+missing+": it is assigned "+fw.Sig(ds.St.Val)+" under ["+condsOf(ds.St.Block())+"]")
+			if key {
+				withKey++
+			}
+			c.Check(missing == "", rule, construct, c.P.Pos(fw.InstrPos(ds.St)), "", "AllChecksOK can become true without "+missing+": it is assigned "+fw.Sig(ds.St.Val)+" under ["+condsOf(ds.St.Block())+"]")
 		}
-		c.Expect(nst > 0, rule, "checkVerifyKeys folds the key checks into AllChecksOK", c.P.Pos(v.Pos()), "", "no store to KeyChecks.AllChecksOK found in checkVerifyKeys")
+		switch {
+		case nst == 0:
+			c.Undecided(rule, construct, "no store to KeyChecks.AllChecksOK found in the region of CheckKeys")
+		case withKey == 0 && undec == 0:
+			c.Fail(rule, construct, c.P.Pos(fn.Pos()), "no assignment of AllChecksOK requires HasEd25519Key: a response without any ed25519 key passes all checks")
+		}
+	}
+	if v := mustFunc(c, rule, "checkVerifyKeys"); v != nil {
 		vj := fw.CallsTo(v, false, fw.NameIs("gmsl.VerifyJSON"))
 		okV := len(vj) == 1
 		if okV {
@@ -642,5 +669,84 @@ func checkCheckKeys(c *fw.Ctx) {
 			okV = strings.Contains(s[0], "param:keys.ServerKeyFields.ServerName") && strings.HasSuffix(s[3], "param:keys.Raw") && strings.Contains(s[1], "next(range(")
 		}
 		c.Check(okV, rule, "each ed25519 key must have signed the raw response under the response's server name", c.P.Pos(v.Pos()), "", "self-signature check arguments differ")
+	}
+}
+
+// checkParallelSlices: the results of VerifyJSONs are index-parallel to its requests. Every
+// helper in its region that receives both a request slice and the result slice writes
+// results[i] for requests[i]; so when the result slice was made with len(X), the request
+// slice handed over with it must be X itself, not a filtered or re-built list.
+func checkParallelSlices(c *fw.Ctx, rule string, fn *ssa.Function) {
+	construct := "helpers receive the result slice together with the request list it was sized from"
+	resolve := func(v ssa.Value, fr *fw.Frame) (ssa.Value, *fw.Frame) {
+		for i := 0; i < 8; i++ {
+			switch x := v.(type) {
+			case *ssa.Parameter:
+				if a, ok := fr.ArgOf(x); ok {
+					v, fr = a, fr.Parent
+					continue
+				}
+			case *ssa.Slice:
+				if x.Low == nil && x.High == nil {
+					v = x.X
+					continue
+				}
+			case *ssa.ChangeType:
+				v = x.X
+				continue
+			}
+			break
+		}
+		return v, fr
+	}
+	isSliceOf := func(t types.Type, elem string) bool {
+		sl, ok := t.Underlying().(*types.Slice)
+		return ok && strings.HasSuffix(fw.Short(sl.Elem().String()), elem)
+	}
+	n := 0
+	for _, dc := range fw.DeepCalls(fn, func(string) bool { return true }, nil) {
+		callee := dc.Call.Common().StaticCallee()
+		if callee == nil || callee.Pkg == nil || !strings.HasPrefix(callee.Pkg.Pkg.Path(), fw.ModPath) {
+			continue
+		}
+		var req, res ssa.Value
+		args := dc.Call.Common().Args
+		for _, a := range args {
+			switch {
+			case isSliceOf(a.Type(), "VerifyJSONRequest"):
+				req = a
+			case isSliceOf(a.Type(), "VerifyJSONResult"):
+				res = a
+			}
+		}
+		if req == nil || res == nil {
+			continue
+		}
+		rv, rfr := resolve(res, dc.Fr)
+		mk, ok := rv.(*ssa.MakeSlice)
+		if !ok {
+			continue
+		}
+		ln, ok := mk.Len.(*ssa.Call)
+		if !ok || fw.CalleeName(ln) != "builtin.len" {
+			continue
+		}
+		sized, _ := resolve(ln.Call.Args[0], rfr)
+		qv, _ := resolve(req, dc.Fr)
+		n++
+		pos := c.P.Pos(dc.Call.Pos())
+		switch {
+		case qv == sized:
+			c.Ok(rule, construct, pos, fw.FuncName(callee)+" gets "+fw.Sig(sized)+" with the results made for it")
+		default:
+			if _, isParam := qv.(*ssa.Parameter); isParam {
+				c.Undecided(rule, construct, "the request list given to "+fw.FuncName(callee)+" could not be traced")
+				continue
+			}
+			c.Fail(rule, construct, pos, fmt.Sprintf("%s is given the request list %s together with results made with len(%s): results[i] no longer belongs to requests[i], verdicts land in the wrong slots", fw.FuncName(callee), fw.SigIn(dc.Fr, req), fw.Sig(sized)))
+		}
+	}
+	if n == 0 {
+		c.Undecided(rule, construct, "no helper taking both slices was found in the region of VerifyJSONs")
 	}
 }
